@@ -163,6 +163,8 @@ def classify_crash(stderr):
     if 'runtime error' in s:
         m = re.search(r'runtime error: ([^\n]*)', s)
         return 'CRASH ub ' + (m.group(1)[:80] if m else '')
+    if 'WATCHDOG' in s:
+        return 'HANG ' + (re.search(r'WATCHDOG ([^\n]*)', s).group(1) if re.search(r'WATCHDOG ([^\n]*)', s) else '')
     if 'terminate called' in s:
         return 'CRASH terminate'
     return 'CRASH other'
